@@ -14,6 +14,7 @@ Expression level
   * `f'a' + f'b'` -> one f-string;  `X.split(s)[-1]` -> `X.rsplit(s, 1)[-1]`
   * tests: `E != 0`, `len(X) > 0`, `len(X) >= 1` -> `E` / `len(X)`; `E == 0` -> `not E` (E an int by construction)
   * `map(f, X)` -> `(f(_m) for _m in X)`; `F([.. for ..])` -> `F(.. for ..)` for consumers of any iterable (join, set, sorted, any, ...)
+  * `{k: v for k, v in X.items()}` -> `dict(X)`
 Statement level
   * `if c: x = True else: x = False` -> `x = c`, `if c: return True else: return False` -> `return c` (c boolean-typed)
   * a bare `return` in tail position of a function that returns no value is dropped
@@ -24,6 +25,7 @@ Statement level
     so early-return style and nested if/else style coincide
   * `if k in X: v = X[k] else: v = d`            ->  `v = X.get(k, d)`
   * `if c: pass else: B` -> `if not c: B`; stray `pass` removed
+  * `if a: (if b: X)` without else -> `if a and b: X`;  `if k in M: x = M[k]` -> `x = M.get(k, x)`
   * with both arms present the positive test is kept: `if a is not None: A else: B` -> `if a is None: B else: A`
     (negative = not / != / not in / is not / >= / <= / a disjunction whose negation is positive)
   * `X = []` + `for t in it: [if c:] X.append(e)` -> `X = [e for t in it if c]` (likewise dict / set), when the
@@ -213,6 +215,17 @@ class ExprCanon(ast.NodeTransformer):
             if len(new_vals) == 1:
                 return new_vals[0]
             node.values = new_vals
+        return node
+
+    def visit_DictComp(self, node):
+        self.generic_visit(node)
+        # {k: v for k, v in X.items()} -> dict(X)
+        if len(node.generators) == 1:
+            g = node.generators[0]
+            if not g.ifs and isinstance(g.target, ast.Tuple) and len(g.target.elts) == 2 and all(isinstance(x, ast.Name) for x in g.target.elts) and isinstance(node.key, ast.Name) and isinstance(node.value, ast.Name) and node.key.id == g.target.elts[0].id and node.value.id == g.target.elts[1].id and node.key.id != node.value.id:
+                it = g.iter
+                if isinstance(it, ast.Call) and isinstance(it.func, ast.Attribute) and it.func.attr == "items" and not it.args and not it.keywords:
+                    return _loc(ast.Call(func=_loc(ast.Name(id="dict", ctx=ast.Load()), node), args=[it.func.value], keywords=[]), node)
         return node
 
     def visit_IfExp(self, node):
@@ -482,6 +495,7 @@ def canon_block(stmts):
     # from the end: `if c: A(exits)` + rest -> if c: A else: rest
     res = []
     for s in reversed(stmts):
+        s = _merge_nested_if(s)
         if isinstance(s, ast.If) and not s.orelse and _exits(s.body) and res:
             s = _loc(ast.If(test=s.test, body=s.body, orelse=list(res)), s)
             res = [swap_if(s)]
@@ -623,12 +637,29 @@ def _negative(t):
     return False
 
 
+def _merge_nested_if(s):
+    """if a: (if b: X)  ->  if a and b: X   (no else anywhere)"""
+    while isinstance(s, ast.If) and not s.orelse and len(s.body) == 1 and isinstance(s.body[0], ast.If) and not s.body[0].orelse:
+        inner, t = s.body[0], s.test
+        vals = (list(t.values) if isinstance(t, ast.BoolOp) and isinstance(t.op, ast.And) else [t]) + (list(inner.test.values) if isinstance(inner.test, ast.BoolOp) and isinstance(inner.test.op, ast.And) else [inner.test])
+        s = _loc(ast.If(test=_loc(ast.BoolOp(op=ast.And(), values=vals), t), body=inner.body, orelse=[]), s)
+    return s
+
+
 def swap_if(s):
     t = s.test
     if _only_pass(s.orelse):
         s = _loc(ast.If(test=s.test, body=s.body, orelse=[]), s)
     if _only_pass(s.body) and s.orelse:
         return swap_if(_loc(ast.If(test=ExprCanon().visit(negate(copy.deepcopy(t))), body=s.orelse, orelse=[]), s))
+    # if k in M: x = M[k]  ->  x = M.get(k, x)
+    if not s.orelse and len(s.body) == 1 and isinstance(s.body[0], ast.Assign) and isinstance(t, ast.Compare) and len(t.ops) == 1 and isinstance(t.ops[0], ast.In):
+        b0 = s.body[0]
+        k, M = t.left, t.comparators[0]
+        if len(b0.targets) == 1 and isinstance(b0.targets[0], ast.Name) and isinstance(b0.value, ast.Subscript) and _dump(b0.value.value) == _dump(M) and _dump(b0.value.slice) == _dump(k) and isinstance(M, (ast.Name, ast.Attribute)):
+            cur = _loc(ast.Name(id=b0.targets[0].id, ctx=ast.Load()), b0)
+            call = _loc(ast.Call(func=_loc(ast.Attribute(value=M, attr="get", ctx=ast.Load()), s), args=[k, cur], keywords=[]), s)
+            return _loc(ast.Assign(targets=b0.targets, value=call), s)
     if s.orelse and _negative(t):
         neg = ExprCanon().visit(ast.fix_missing_locations(negate(copy.deepcopy(t))))
         if not _negative(neg):
